@@ -1,7 +1,7 @@
 (* Entry points of the correspondence check: one call per case record written by the
    harness.  Everything here is executable; nothing is proved in this file. *)
 From VJ Require Import Model.Str Model.Json Model.Ast Model.State Model.Util Model.Text
-  Model.Directive Model.Lower Model.Visitor Model.Types Model.Options Spec.Plain Spec.Pragma Spec.OutViews Spec.DcViews Spec.Site Spec.SiteCheck Spec.Context Lemmas.NodeInd.
+  Model.Directive Model.Lower Model.Visitor Model.Types Model.Options Spec.Plain Spec.Pragma Spec.OutViews Spec.DcViews Spec.Site Spec.SiteCheck Spec.SlotFlag Spec.SlotFlagCheck Spec.Context Lemmas.NodeInd.
 From VJ Require Import Gen.Tables.
 
 Definition jfield_d (k : String.string) (j : jv) : jv :=
@@ -114,7 +114,19 @@ Definition extras (c : jv) (model_out : jv) : list (str * str) :=
                          else s_ "fail:" ++ dec_of_N (hd 0 (filter (fun c => negb (N.eqb c 11)) cs))
                  end);
     (s_ "vC13", b2s (jv_eqb (view_C13 real) (view_C13 model)));
-    (s_ "oC13slots", b2s (slot_dynamic_ok (e_unres E) real));
+    (* C13, last clause: the probe element against the real / model output *)
+    (s_ "site_flags", match find_site input, find_site real with
+                      | Some el, Some o =>
+                          match flags_site E 40 el o with [] => [49] | fs => join [44] fs end
+                      | _, _ => s_ "none"
+                      end);
+    (s_ "site_flags_model", match find_site input, find_site model with
+                            | Some el, Some o =>
+                                match flags_site E 40 el o with [] => [49] | fs => join [44] fs end
+                            | _, _ => s_ "none"
+                            end);
+    (* C07: the parsed input satisfies the grammar predicate the traversal theorems assume *)
+    (s_ "gram_in", b2s (module_shape input && gram PExpr input));
     (* C07: no JSX node left, or a diagnostic was reported *)
     (s_ "oC07", b2s (jsx_free real || match rdiags with [] => false | _ => true end));
     (s_ "vC07", b2s (Bool.eqb (jsx_free real) (jsx_free model)));
